@@ -236,6 +236,11 @@ def generate(rng, tier, idx):
                      'chunk_size': rng.choice([1, 3, 8, 1024])}
         if front != 'stream' and target == 'input' and sc['in_from'] == 'file' and rng.random() < 0.5:
             sc['bad']['pieces'] = None      # read the real file, no schedule control
+        if front == 'stream' and rng.random() < 0.3:
+            # the caller hands over a text stream of its own that decodes on demand and leaves line ends alone
+            # (open(path, encoding='utf-8', newline='')); CR line ends, so that the one-character look-ahead after a CR is a read too
+            sc['bad']['text_layer'] = {'tw_chunk': rng.choice([1, 2, 7, 64, 8192])}
+            sc['bad']['line_sep'] = rng.choice(['\r', '\r', '\n'])
     if sc['front'] in ('stream', 'file', 'sqlite') and rng.random() < 0.12:
         sc['in_thread'] = True      # the library call is made from a thread other than the main one
     if sc['front'] in ('file', 'cli') and JOIN_FILE in sc['query'] and rng.random() < 0.4:
@@ -587,6 +592,8 @@ def _make_sink(sink_cfg, fault):
 
 def _input_bytes(sc, fault, which):
     text = sc['in_text'] if which == 'input' else sc['join_text']
+    if fault and fault['kind'] in ('bad_byte', 'clean_schedule') and (sc.get('bad') or {}).get('line_sep') == '\r':
+        text = text.replace('\n', '\r')      # same length: fault positions keep their meaning
     data = text.encode('utf-8')
     if fault and fault['kind'] == 'bad_byte' and fault['where'] == which:
         data = apply_bad_byte(data, fault['pos'], fault['byte'])
@@ -605,16 +612,22 @@ def _run_stream(t, sc, fault, obs):
             return SimTextSource(text, [len(text)] if text else [])
         if bad is not None and bad['where'] == which and bad.get('pieces') is not None:
             stream, raw = make_byte_input(data, bad['pieces'], bad['bufsize'], 'plain', log=Sim.log)
+            if bad.get('text_layer'):
+                stream = io.TextIOWrapper(stream, encoding='utf-8', newline='')
+                stream._CHUNK_SIZE = bad['text_layer']['tw_chunk']
         else:
             stream, raw = make_byte_input(data, [len(data)] if data else [], 8192, 'plain')
         raws[which] = raw
         return stream
+
+    def enc_of(which):
+        return None if (bad is not None and bad['where'] == which and bad.get('pieces') is not None and bad.get('text_layer')) else enc
     out_stream, get_out, sink = _make_sink(sc['sink'], fault)
     warnings = []
     with fsseam.ProcessSeam(t) as seam:
         try:
             chunk_size = bad['chunk_size'] if bad is not None else 1024
-            it = t.csv.CSVRecordIterator(make_input(in_data, 'input', 'input'), enc, sc['delim'], sc['policy'], has_header=sc['with_headers'], chunk_size=chunk_size)
+            it = t.csv.CSVRecordIterator(make_input(in_data, 'input', 'input'), enc_of('input'), sc['delim'], sc['policy'], has_header=sc['with_headers'], chunk_size=chunk_size)
             wr = t.csv.CSVWriter(out_stream, sc['sink'].get('close_on_finish', False), enc, sc['delim'], sc['policy'], colorize_output=bool(sc.get('color')))
             reg = None
             if sc['join_text'] is not None:
@@ -622,7 +635,7 @@ def _run_stream(t, sc, fault, obs):
 
                 class Reg(t.engine.RBQLTableRegistry):
                     def get_iterator_by_table_id(self, table_id, alias):
-                        return t.csv.CSVRecordIterator(make_input(jdata, 'join', table_id), enc, sc['delim'], sc['policy'], has_header=sc['with_headers'],
+                        return t.csv.CSVRecordIterator(make_input(jdata, 'join', table_id), enc_of('join'), sc['delim'], sc['policy'], has_header=sc['with_headers'],
                                                        table_name=table_id, variable_prefix=alias)
                 reg = Reg()
             _invoke(sc, lambda: t.engine.query(sc['query'], it, wr, warnings, reg))
